@@ -73,7 +73,7 @@ def run(tier, seed, rep):
                                files={"def.rs": files.get(d["id"], "") if d else ""}))
         name, res, consts = mc.result()
         rep.add_model(name, res, consts)
-    n_calls = sum(len(e["ins"]) for e in evs)
+    n_calls = sum(len(e["ins"]) for e in evs if e.get("op") == "parse")
     evs = [e for e in evs if e.get("op") != "panic"]      # PANIC_FILTER: statistics only (panic events were judged by TLC above)
     rep.cov["programs"] = len(ok_ids)
     rep.cov["evaluations"] = 2 * n_calls
